@@ -87,6 +87,12 @@ def _strlen(c, char):
     return max([len(str(x)) for x in a.flatten().tolist()] or [0])
 
 
+def _shape(x):
+    """Shape of the data that the writer hands to netCDF (without the char dimension)."""
+    d = x.get_data(None) if hasattr(x, "get_data") else None
+    return [int(n) for n in d.shape] if d is not None else []
+
+
 class FieldAbs:
     def __init__(self, f, cids, char, keyno):
         self.f = f
@@ -104,7 +110,7 @@ class FieldAbs:
         fp = _drop(FP.fp_construct(x, names=False))
         cid = self.cids(json.dumps(fp, sort_keys=True, default=str))
         attrs = [[k, vhash(v)] for k, v in sorted(x.properties().items())]
-        return [cid, kind, _strlen(c, self.char), attrs]
+        return [cid, kind, _strlen(c, self.char), attrs, _shape(x)]
 
     def breq(self, c, squeeze=False):
         b = c.get_bounds(None)
@@ -122,7 +128,7 @@ class FieldAbs:
             clim = bool(c.is_climatology()) if hasattr(c, "is_climatology") else False
         except Exception:
             clim = False
-        return [[cid, KIND["bounds"], None, attrs], size, b.nc_get_dimension(f"bounds{size}"), b.nc_get_variable(None), clim]
+        return [[cid, KIND["bounds"], None, attrs, _shape(x)], size, b.nc_get_dimension(f"bounds{size}"), b.nc_get_variable(None), clim]
 
 
 def _base(c, default):
@@ -280,16 +286,22 @@ def _abstract(f0, cids, fmt, string, cand):
         if len(cs) != 1:
             continue
         owner = cs[0]
+        params = []
         for term, v in cc.parameters().items():
             if v is not None and term not in ("standard_name", "computed_standard_name"):
-                raise Unmodelled("scalar formula term")
+                # `_write_scalar_data`: a 0-d variable named after the term, written from the Data value (which has no
+                # properties: the variable gets no attributes)
+                if type(v).__name__ != "Data" or v.ndim != 0:
+                    raise Unmodelled("scalar formula term that is not a 0-d Data")
+                fp = _drop(dict(data=FP.fp_data(v)))
+                params.append([term, [cids("D" + json.dumps(fp, sort_keys=True, default=str)), 9, None, [], []]])
         terms = []
         for term, dk in cc.domain_ancillaries().items():
             if dk is None:
                 continue
             terms.append([term, A.key(dk), [_num(a) for a in da[dk]]])
-        if terms:
-            reqs.append(["ft", A.key(owner), _num(da[owner][0]), terms])
+        if terms or params:
+            reqs.append(["ft", A.key(owner), _num(da[owner][0]), terms, params])
         # _create_vertical_datum
         if r.datum.parameters():
             hits = [g for g in gm_work if _drop(dict(p=sorted((k, vhash(v)) for k, v in g.datum.parameters().items()))) ==
@@ -320,7 +332,7 @@ def _abstract(f0, cids, fmt, string, cand):
         cid = cids("R" + json.dumps(fp, sort_keys=True, default=str))
         attrs = [[k, vhash(v)] for k, v in sorted(params.items())]
         base = g.nc_get_variable(None) or cc.get_parameter("grid_mapping_name", "grid_mapping")
-        reqs.append(["gm", [cid, 5, None, attrs], base, [A.key(k) for k in g.coordinates()], multiple])
+        reqs.append(["gm", [cid, 5, None, attrs, []], base, [A.key(k) for k in g.coordinates()], multiple])
     if not is_domain:
         for k, c in f.field_ancillaries(todict=True).items():
             if c.get_data(None) is None:
@@ -340,7 +352,9 @@ def _abstract(f0, cids, fmt, string, cand):
             for a in cm.get_axes(()):
                 axs.append(_num(a) if a in axes else a)
             cms.append([axs, _cm_rest(cm)])
-    reqs.append(["dv", [cid, 8 if is_domain else 7, strlen, attrs], _base(f0, "domain" if is_domain else "data"),
+    # the data as written: size-one axes that the writer inserts are part of its shape
+    dshape = [] if is_domain else [int(axes[a].get_size()) for a in field_axes]
+    reqs.append(["dv", [cid, 8 if is_domain else 7, strlen, attrs, dshape], _base(f0, "domain" if is_domain else "data"),
                  [_num(a) for a in (field_axes if not is_domain else data_axes)], cms, is_domain])
     ga = f0.nc_global_attributes() if hasattr(f0, "nc_global_attributes") else {}
     ftf = ga.get("featureType")
